@@ -218,3 +218,34 @@ def run(ctx):
     comp = [n for n in ast.walk(sv) if isinstance(n, (ast.ListComp, ast.GeneratorExp))]
     ok = bool(comp) and norm(comp[0].generators[0].iter) == "self.objs" and not comp[0].generators[0].ifs
     ctx.ob("C14.R7", A + ":Archive.save", "every member object is saved", ok, construct="all-members")
+    _recursive_types(ctx)
+
+
+def _recursive_types(ctx):
+    """R8: debug types may be recursive (a struct reaching itself through a pointer): the deserializer must publish a
+    struct in its cache before it resolves the field types, and every branch must end with the type in the cache"""
+    import ast as _a
+    from ..core import norm as _n, last_name as _l
+    from ..tables import eq_branches
+    D = "ppci/binutils/debuginfo.py"
+    ctx.rule("C14.R8", "debug info: a struct type is registered in the deserializer's cache BEFORE its field types are resolved (self-referential structs: linked-list node), every kind of type ends up in the cache, and the cache is consulted first", floor=6)
+    gt = ctx.fn(D, "DictDeserializer.get_type")
+    site = D + ":DictDeserializer.get_type"
+    first = gt.body[1] if isinstance(gt.body[0], _a.Expr) else gt.body[0]
+    ok = isinstance(first, _a.If) and _n(first.test) == "idx in self.types" and any(isinstance(r, _a.Return) and _n(r.value) == "self.types[idx]" for r in first.body)
+    ctx.ob("C14.R8", site, "a type id already in the cache is returned from it (before the worklist is touched)", ok, construct="cache-first")
+    br = eq_branches(gt, "kind")
+    ctx.need(len(br) >= 4, "get_type: kind dispatch not found")
+    for kind, (ifn, body) in sorted(br.items()):
+        stores = [s for b in body for s in _a.walk(b) if isinstance(s, _a.Assign) and _n(s.targets[0]) == "self.types[idx]"]
+        ctx.ob("C14.R8", site, "kind %r: the new type is stored in the cache under its id" % kind, len(stores) == 1, construct="cached:%s" % kind)
+        rec = [c for b in body for c in _a.walk(b) if isinstance(c, _a.Call) and _n(c.func) == "self.get_type"]
+        loops = [l for b in body for l in _a.walk(b) if isinstance(l, _a.For) and any(c in list(_a.walk(l)) for c in rec)]
+        if loops and stores:
+            # aggregate with member types resolved in a loop: the members may refer back to it
+            ctx.ob("C14.R8", site, "kind %r: the type is in the cache before the member types are resolved (a member may refer back to this very id, which was already taken off the worklist)" % kind,
+                   stores[0].lineno < loops[0].lineno, construct="registered-before-members:%s" % kind, node=stores[0])
+    pops = [c for c in _a.walk(gt) if isinstance(c, _a.Call) and _n(c.func) == "self.type_worklist.pop"]
+    ctx.ob("C14.R8", site, "the description is taken off the worklist exactly once, after the cache test", len(pops) == 1 and pops[0].lineno > first.lineno, construct="worklist-once")
+    rets = [r for r in gt.body if isinstance(r, _a.Return)]
+    ctx.ob("C14.R8", site, "the type returned is the cached one", bool(rets) and _n(rets[-1].value) == "self.types[idx]", construct="returns-cached")
